@@ -513,7 +513,7 @@ def int_eval(e, env):
             return None
         r = abs(a) % abs(b)
         return r if a >= 0 else -r
-    if k == 'call' and e[1] == 'abs' and len(e[2]) == 1:
+    if k == 'call' and e[1] in ('abs', 'llabs', 'labs', 'c:llabs', 'c:labs', 'c:abs') and len(e[2]) == 1:
         a = int_eval(e[2][0], env)
         return None if a is None else abs(a)
     if k == 'call' and e[1].startswith('A:') and len(e[2]) == 1:
